@@ -55,6 +55,8 @@ RULES = [
     ('R1b', 'Type<D> / Type<\'_, D> / Type<NodeCodec<D>> -> Type',
      re.compile(r'\b(Writer|Reader|Database|Node|Leaf|SplitPlaneNormal|FrozzenReader|ImmutableLeafs|ImmutableTrees|ImmutableSubsetLeafs|TmpNodes|QueryBuilder|ItemIter)<(?:\'\w+,\s*)?(?:D|ND|NodeCodec<D>)>'), r'\1'),
     ('R1c', 'D::f(..) -> Dist::f(..)', re.compile(r'\bD::(?=[a-zA-Z_])'), 'Dist::'),
+    ('R1j', 'Dist::DEFAULT_OVERSAMPLING -> Dist::default_oversampling_() (associated const of the uninterpreted metric)',
+     re.compile(r'\bDist::DEFAULT_OVERSAMPLING\b'), 'Dist::default_oversampling_()'),
     ('R1i', 'ND::f(..) -> NDist::f(..) (second uninterpreted metric of prepare_changing_distance)', re.compile(r'\bND::(?=[a-zA-Z_])'), 'NDist::'),
     ('R1d', 'drop lifetime-only generics on stand-in types (Reader<\'t> etc.)',
      re.compile(r"\b(RoTxn|RwTxn|ItemIds|Descendants|Metadata)<'\w+>"), r'\1'),
@@ -130,12 +132,24 @@ def rule_r6b(text):
             pat, expr = header[:mi.start()].strip(), header[mi.end():].strip()
             if re.match(r'^[\w.()]*\s*\.\.', expr) or re.search(r'^\(?\s*\w+\s*\.\.', expr):
                 continue  # integer range
-            if expr.startswith('iter__'):
-                continue
+            if expr.startswith('iter__') or re.match(r'^&(mut )?\w+$', expr):
+                continue  # a borrowed plain collection: left to Verus
+            if re.match(r'^\w+$', expr):
+                # `for x in vec` (Vec of Copy elements, by value) -> index loop
+                ls = out.rfind('\n', 0, m.start()) + 1
+                indent = re.match(r'[ \t]*', out[ls:]).group(0)
+                new = ('let mut idx__%d: usize = 0;\n%swhile idx__%d < %s.len() ' % (n, indent, n, expr))
+                body_ins = '\n%s    let %s = %s[idx__%d];\n%s    idx__%d += 1;' % (indent, pat, expr, n, indent, n)
+                out = out[:m.start()] + new + '{' + body_ins + out[ob + 1:]
+                n += 1
+                found = 'restart'
+                break
             found = (m.start(), ob, pat, expr)
             break
         if not found:
             return out, n
+        if found == 'restart':
+            continue
         start, ob, pat, expr = found
         ls = out.rfind('\n', 0, start) + 1
         indent = re.match(r'[ \t]*', out[ls:]).group(0)
